@@ -769,7 +769,13 @@ def compiled_object(draw):
         ex = ["Sum", [ex, ["Product", [["Const", "int", 100], ["Var", trio[0]]]],
                       ["Product", [["Const", "int", 10], ["Var", trio[1]]]],
                       ["Var", trio[2]]]]
-    names = sorted(X.var_names(ex))
+    if draw(st.integers(0, 4)) == 0:
+        # a numpy function: the generated code names the module, so the unpickled
+        # callable needs numpy in its namespace like the freshly compiled one
+        other = draw(S.expr("NUM", 1, FRAG_C))
+        ex = ["Call", ["Lookup", ["Var", "numpy"], draw(st.sampled_from(
+            ("maximum", "minimum", "add")))], [ex, other]]
+    names = sorted(X.var_names(ex) - {"numpy", "math"})
     pool = names + [n for n in ("aa", "zz") if draw(st.integers(0, 4)) == 0]
     if draw(st.booleans()):
         pool = [n for n in pool if n not in (
